@@ -14,7 +14,9 @@ RULE = ('corpus (defect witnesses, repo test inputs, the bundled JSONTestSuite f
         'exhaustive: all strings over the 16-symbol alphabet { } [ ] : , " \\ 0 1 - . e a t space up to length 4 (quick) / 5 '
         '(thorough) and all number-like strings over {+,-,.,0,1,9,e,E} up to length 6 / 7 -> grammar-generated documents '
         '(all value kinds, every escape form, surrogate pairs, whitespace at every legal position, nesting up to 300) with '
-        'single-edit mutants and every-prefix truncations, parse_max_depth with small limits -> random Values (strings over all '
+        'single-edit mutants and every-prefix truncations, parse_max_depth with small limits; strings of \\uXXXX escapes around the '
+        'surrogate range in every arrangement (also run through the spec-level scan no_lone_surrogate_escape vs an independent '
+        'implementation) -> random Values (strings over all '
         'of Unicode incl. controls, numbers over the full finite f64 range incl. -0, subnormals, integers beyond 2^53) '
         'serialised by serialize / serialize_pretty(0..8) on both sides, reparsed on both sides and compared with the '
         'original by f64 bit pattern. Compared: ok/err + error class, canonical structural dump (numbers as f64 bits, strings '
@@ -128,7 +130,8 @@ def oracle_expect(text, max_depth):
         return 'err'
     d, sur = py_depth_and_surrogates(r[1])
     if sur:
-        return None                     # lone surrogate escapes: the property allows rejecting them
+        # CPython keeps unpaired surrogate escapes; the property allows rejecting them and the parser does (InvalidEscape)
+        return 'err' if not py_scan(text) else None
     if d > max_depth:
         return 'err'
     return 'ok ' + py_dump(r[1])
@@ -452,6 +455,63 @@ def mutate(rng, text):
     return text + rng.choice(MUT_CHARS)
 
 
+HEXD = set('0123456789abcdefABCDEF')
+
+
+def py_scan(text):
+    """Independent implementation of JsonSpec.no_lone_surrogate_escape."""
+    i, n = 0, len(text)
+    while i < n:
+        if text[i] != '\\':
+            i += 1
+            continue
+        if i + 1 >= n:
+            return True
+        if text[i + 1] != 'u':
+            i += 2
+            continue
+        h = text[i + 2:i + 6]
+        if len(h) < 4:
+            return True
+        if not all(c in HEXD for c in h):
+            i += 6
+            continue
+        code = int(h, 16)
+        if 0xD800 <= code <= 0xDFFF:
+            if code >= 0xDC00:
+                return False
+            nx = text[i + 6:i + 12]
+            if len(nx) < 6 or nx[0] != '\\' or nx[1] != 'u' or not all(c in HEXD for c in nx[2:]):
+                return False
+            if not 0xDC00 <= int(nx[2:], 16) <= 0xDFFF:
+                return False
+            i += 12
+        else:
+            i += 6
+    return True
+
+
+def surrogate_docs(ctx):
+    """Strings made of escape sequences around the surrogate range, in every order: paired, lone high, lone low, inverted."""
+    rng = ctx.rng
+    n = 20000 if ctx.tier == 'thorough' else 2500
+    pieces = ['\\uD800', '\\uDBFF', '\\uDC00', '\\uDFFF', '\\uD834', '\\uDD1E', '\\ud83d', '\\ude00', '\\uD7FF', '\\uE000',
+              '\\u0041', '\\u0000', '\\uFFFF', 'a', '\\\\', '\\n', '\\"', '\\/', '\\u', '\\uD83', 'uD834', '\\uDg00', '\\u+D83', ' ', 'é',
+              '\U0001d11e']
+    out = []
+    for _ in range(n):
+        body = ''.join(rng.choice(pieces) for _ in range(rng.randint(1, 6)))
+        k = rng.random()
+        if k < 0.6:
+            text = '"' + body + '"'
+        elif k < 0.8:
+            text = '{"' + body + '":"' + ''.join(rng.choice(pieces) for _ in range(rng.randint(0, 3))) + '"}'
+        else:
+            text = '["' + body + '",1]'
+        out.append((text, 'surrogates', None, None))
+    return out
+
+
 # ---------------------------------------------------------------------------------------------------
 
 def read_max_depth():
@@ -584,7 +644,7 @@ def run_parse_batch(ctx, cases, max_depth):
             ctx.mark_nontrivial(('p', text, lim))
         case = {'kind': 'parse', 'text': text, 'limit': lim, 'stream': tag, 'line': line}
         # third opinion
-        if exp is None and stream in ('exh16', 'exhnum', 'mutant', 'mutant-multi', 'prefix', 'corpus', 'testsuite', 'repo-tests'):
+        if exp is None and stream in ('exh16', 'exhnum', 'mutant', 'mutant-multi', 'prefix', 'corpus', 'testsuite', 'repo-tests', 'surrogates'):
             if stream == 'exhnum':
                 exp = ('ok B%s;' % fbits(float(text))) if NUM_RE.match(text) else 'err'
             else:
@@ -744,6 +804,27 @@ def run(ctx):
     m, im = run_parse_batch(ctx, docs, max_depth)
     for k in (0, 1, len(docs) // 2):
         ctx.sample({'stream': docs[k][1], 'text': docs[k][0][:120], 'model': m[k][:120], 'impl': im[k][:120]})
+
+    # 3b. surrogate escapes in every arrangement; the spec-level scan against an independent implementation, and the
+    #     proved equivalence "accepted <-> RFC text within depth and scan passes" observed on the implementation
+    sd = surrogate_docs(ctx)
+    m, im = run_parse_batch(ctx, sd, max_depth)
+    esc_cases = [c for c in sd + docs if '\\u' in c[0]][:60000]
+    sc = ctx.model(['jscan %s' % hx(c[0]) for c in esc_cases])
+    ctx.evaluations += len(esc_cases)
+    for c, o in zip(esc_cases, sc):
+        want = 'true' if py_scan(c[0]) else 'false'
+        ctx.count('scan:' + o)
+        if o != want:
+            report(ctx, {'kind': 'scan', 'text': c[0], 'line': 'jscan %s' % hx(c[0])}, 'model=' + o, 'python=' + want,
+                   cls='model-vs-oracle', failing_input=False,
+                   what='JsonSpec.no_lone_surrogate_escape disagrees with the independent implementation')
+    for (text, _t, _e, _l), a, b in zip(sd, m, im):
+        if b.startswith('ok') and not py_scan(text):
+            report(ctx, {'kind': 'parse', 'text': text, 'limit': None, 'stream': 'surrogates', 'line': 'jparse %s' % hx(text)},
+                   'impl=' + b[:200], 'rejected or paired', cls='lone-surrogate', failing_input=False,
+                   what='accepted a text with an unpaired surrogate escape (allowed by RFC, but the theorems say it is rejected)')
+    ctx.sample({'stream': 'surrogates', 'text': sd[0][0], 'model': m[0][:80], 'impl': im[0][:80]})
 
     # 4. random values through the serialisers and back
     vals = serial_values(ctx)
